@@ -236,7 +236,7 @@ func checkStatusProto(got *spb.Status, sc *Script, pfx string, add func(obs, cls
 		add("status-body-code", codeClass(sc.Code), fmt.Sprintf("%s: google.rpc.Status.code=%d, handler returned %d", pfx, got.GetCode(), int32(sc.Code)))
 	}
 	if got.GetMessage() != sc.Msg {
-		add("status-body-message", msgShape(sc.Msg), fmt.Sprintf("%s: google.rpc.Status.message=%q, handler returned %q", pfx, clip(got.GetMessage(), 80), clip(sc.Msg, 80)))
+		add("status-body-message", msgShape(sc.Msg), fmt.Sprintf("%s: google.rpc.Status.message=%+q, handler returned %+q", pfx, clip(got.GetMessage(), 80), clip(sc.Msg, 80)))
 	}
 	checkDetails(got.GetDetails(), sc, pfx, add)
 }
@@ -252,7 +252,7 @@ func checkDetails(got []*anypb.Any, sc *Script, pfx string, add func(obs, cls, w
 	}
 	for i := range want {
 		if !proto.Equal(got[i], want[i]) {
-			add("details", "details-value", fmt.Sprintf("%s: status detail %d differs: got %v want %v", pfx, i, got[i], want[i]))
+			add("details", "details-value", fmt.Sprintf("%s: status detail %d differs: got %+q want %+q", pfx, i, fmt.Sprint(got[i]), fmt.Sprint(want[i])))
 			return
 		}
 	}
@@ -267,14 +267,14 @@ func decodeHTTPStatus(o *Obs) (*spb.Status, string) {
 	switch mt {
 	case "application/json":
 		if err := protojson.Unmarshal(o.Body, st); err != nil {
-			return nil, fmt.Sprintf("error body (Content-Type %q) is not a JSON google.rpc.Status: %v; body %q", ct, err, clip(string(o.Body), 120))
+			return nil, fmt.Sprintf("error body (Content-Type %+q) is not a JSON google.rpc.Status: %+q; body %+q", ct, fmt.Sprint(err), clip(string(o.Body), 120))
 		}
 	case "application/protobuf", "application/x-protobuf", "application/octet-stream":
 		if err := proto.Unmarshal(o.Body, st); err != nil {
-			return nil, fmt.Sprintf("error body (Content-Type %q) is not a binary google.rpc.Status: %v", ct, err)
+			return nil, fmt.Sprintf("error body (Content-Type %+q) is not a binary google.rpc.Status: %+q", ct, fmt.Sprint(err))
 		}
 	default:
-		return nil, fmt.Sprintf("error body has Content-Type %q, which names no known encoding of google.rpc.Status", ct)
+		return nil, fmt.Sprintf("error body has Content-Type %+q, which names no known encoding of google.rpc.Status", ct)
 	}
 	return st, ""
 }
@@ -317,10 +317,10 @@ func check05(c *Case, o *Obs, rec Rec) (vs []viol, inconclusive string) {
 	}
 	if !rec.Ran {
 		// the request did not reach the handler: nothing about status fidelity was observed
-		return vs, fmt.Sprintf("%s: the scripted handler was never invoked (HTTP %d, grpc-status %q %q, transport %q)", c.Proto, o.HTTP, o.CodeText, clip(o.Msg, 100), clip(o.Err, 100))
+		return vs, fmt.Sprintf("%s: the scripted handler was never invoked (HTTP %d, grpc-status %+q %+q, transport %+q)", c.Proto, o.HTTP, o.CodeText, clip(o.Msg, 100), clip(o.Err, 100))
 	}
 	if o.Err != "" && !(c.Proto == "ws") {
-		add("no-response", gen, fmt.Sprintf("client got no usable response: %s", clip(o.Err, 200)))
+		add("no-response", gen, fmt.Sprintf("client got no usable response: %s", ascii(clip(o.Err, 200))))
 		return vs, ""
 	}
 
@@ -361,22 +361,22 @@ func check05(c *Case, o *Obs, rec Rec) (vs []viol, inconclusive string) {
 			Msg  *string `json:"msg"`
 		}
 		if err := json.Unmarshal(o.Body, &te); err != nil || te.Code == nil {
-			add("twirp-body-undecodable", gen, fmt.Sprintf("Twirp error body is not a JSON object with a code: %v; body %q", err, clip(string(o.Body), 120)))
+			add("twirp-body-undecodable", gen, fmt.Sprintf("Twirp error body is not a JSON object with a code: %+q; body %+q", fmt.Sprint(err), clip(string(o.Body), 120)))
 			return
 		}
 		if sc.Code <= 16 {
 			if *te.Code != twirpOfCode[sc.Code] {
-				add("twirp-name", codeClass(sc.Code), fmt.Sprintf("Twirp code %q for gRPC code %d, the Twirp spec name is %q", *te.Code, sc.Code, twirpOfCode[sc.Code]))
+				add("twirp-name", codeClass(sc.Code), fmt.Sprintf("Twirp code %+q for gRPC code %d, the Twirp spec name is %+q", *te.Code, sc.Code, twirpOfCode[sc.Code]))
 			}
 		} else if !twirpSpecNames[*te.Code] {
-			add("twirp-name", "code-out-of-range", fmt.Sprintf("Twirp code %q for gRPC code %d is not one of the Twirp error codes", *te.Code, sc.Code))
+			add("twirp-name", "code-out-of-range", fmt.Sprintf("Twirp code %+q for gRPC code %d is not one of the Twirp error codes", *te.Code, sc.Code))
 		}
 		got := ""
 		if te.Msg != nil {
 			got = *te.Msg
 		}
 		if got != sc.Msg {
-			add("twirp-msg", msgShape(sc.Msg), fmt.Sprintf("Twirp msg %q, handler returned %q", clip(got, 80), clip(sc.Msg, 80)))
+			add("twirp-msg", msgShape(sc.Msg), fmt.Sprintf("Twirp msg %+q, handler returned %+q", clip(got, 80), clip(sc.Msg, 80)))
 		}
 
 	case c.Proto == "grpc":
@@ -392,14 +392,14 @@ func check05(c *Case, o *Obs, rec Rec) (vs []viol, inconclusive string) {
 			return
 		}
 		if o.Code != uint64(sc.Code) {
-			add("grpc-status", codeClass(sc.Code), fmt.Sprintf("grpc-go client saw code %d (%q), handler returned %d", o.Code, clip(o.Msg, 100), sc.Code))
+			add("grpc-status", codeClass(sc.Code), fmt.Sprintf("grpc-go client saw code %d (%+q), handler returned %d", o.Code, clip(o.Msg, 100), sc.Code))
 			return
 		}
 		if sc.Code == 0 {
 			return
 		}
 		if o.Msg != sc.Msg {
-			add("grpc-message", msgShape(sc.Msg), fmt.Sprintf("grpc-go client saw message %q, handler returned %q", clip(o.Msg, 80), clip(sc.Msg, 80)))
+			add("grpc-message", msgShape(sc.Msg), fmt.Sprintf("grpc-go client saw message %+q, handler returned %+q", clip(o.Msg, 80), clip(sc.Msg, 80)))
 		}
 		checkDetails(o.Details.GetDetails(), sc, "grpc-go client", add)
 
@@ -418,7 +418,7 @@ func check05(c *Case, o *Obs, rec Rec) (vs []viol, inconclusive string) {
 				if len(o.Body) == 0 {
 					shape = "headers-only-response"
 				}
-				add("content-type", shape, fmt.Sprintf("gRPC-web response has Content-Type %q (request was %s)", ct, c.Proto))
+				add("content-type", shape, fmt.Sprintf("gRPC-web response has Content-Type %+q (request was %s)", ct, c.Proto))
 			}
 		}
 		if o.WebErr != "" {
@@ -440,14 +440,14 @@ func check05(c *Case, o *Obs, rec Rec) (vs []viol, inconclusive string) {
 			return
 		}
 		if o.Code != uint64(sc.Code) {
-			add("grpc-status", codeClass(sc.Code), fmt.Sprintf("grpc-status %q, handler returned %d", o.CodeText, sc.Code))
+			add("grpc-status", codeClass(sc.Code), fmt.Sprintf("grpc-status %+q, handler returned %d", o.CodeText, sc.Code))
 			return
 		}
 		if sc.Code == 0 {
 			return
 		}
 		if o.Msg != sc.Msg {
-			add("grpc-message", msgShape(sc.Msg), fmt.Sprintf("percent-decoded grpc-message %q, handler returned %q", clip(o.Msg, 80), clip(sc.Msg, 80)))
+			add("grpc-message", msgShape(sc.Msg), fmt.Sprintf("percent-decoded grpc-message %+q, handler returned %+q", clip(o.Msg, 80), clip(sc.Msg, 80)))
 		}
 		if o.DetErr != "" {
 			add("details", "details-undecodable", o.DetErr)
@@ -461,7 +461,7 @@ func check05(c *Case, o *Obs, rec Rec) (vs []viol, inconclusive string) {
 
 	case c.Proto == "ws":
 		if !o.WSClose {
-			add("close-frame-missing", gen, fmt.Sprintf("connection ended without a close frame after %d messages: %s", o.Replies, clip(o.Err, 160)))
+			add("close-frame-missing", gen, fmt.Sprintf("connection ended without a close frame after %d messages: %s", o.Replies, ascii(clip(o.Err, 160))))
 			return
 		}
 		if o.WSPayloadLen > 125 {
@@ -491,11 +491,11 @@ func check05(c *Case, o *Obs, rec Rec) (vs []viol, inconclusive string) {
 		reason := string(o.WSReason)
 		switch {
 		case !utf8.ValidString(reason):
-			add("close-reason-not-utf8", wsLenClass(sc.Msg), fmt.Sprintf("close reason %q is not valid UTF-8", clip(reason, 60)))
+			add("close-reason-not-utf8", wsLenClass(sc.Msg), fmt.Sprintf("close reason %+q is not valid UTF-8", clip(reason, 60)))
 		case len(sc.Msg) <= 123 && reason != sc.Msg:
-			add("close-reason", wsLenClass(sc.Msg)+","+msgShape(sc.Msg), fmt.Sprintf("close reason %q, handler returned %q (fits a close frame)", clip(reason, 80), clip(sc.Msg, 80)))
+			add("close-reason", wsLenClass(sc.Msg)+","+msgShape(sc.Msg), fmt.Sprintf("close reason %+q, handler returned %+q (fits a close frame)", clip(reason, 80), clip(sc.Msg, 80)))
 		case !strings.HasPrefix(sc.Msg, reason):
-			add("close-reason", wsLenClass(sc.Msg)+","+msgShape(sc.Msg), fmt.Sprintf("close reason %q is not a prefix of the message %q", clip(reason, 80), clip(sc.Msg, 80)))
+			add("close-reason", wsLenClass(sc.Msg)+","+msgShape(sc.Msg), fmt.Sprintf("close reason %+q is not a prefix of the message %+q", clip(reason, 80), clip(sc.Msg, 80)))
 		}
 	}
 	return vs, ""
@@ -503,9 +503,9 @@ func check05(c *Case, o *Obs, rec Rec) (vs []viol, inconclusive string) {
 
 func framingClass(c *Case, o *Obs) string {
 	if c.webText() {
-		return "base64-stream-tail"
+		return "text-mode-body"
 	}
-	return "frames"
+	return "binary-body"
 }
 
 // --------------------------------------------------------------- workload
